@@ -360,6 +360,8 @@ func (u *Unit) appendSlice(st *State, s, t Val) Val {
 	i := fmt.Sprintf("ai!%d", u.nfresh)
 	st.assume(fmt.Sprintf("(forall ((%s Int)) (! (=> (and (<= 0 %s) (< %s %s)) (= %s %s)) :pattern (%s)))", i, i, i, sl, u.sliceAt(r, i), u.sliceAt(s, i), u.sliceAt(r, i)))
 	st.assume(fmt.Sprintf("(forall ((%s Int)) (! (=> (and (<= 0 %s) (< %s %s)) (= %s %s)) :pattern (%s)))", i, i, i, tl, u.sliceAt(r, app("+", sl, i)), u.sliceAt(t, i), u.sliceAt(t, i)))
+	// the same fact, triggered by reads of the result
+	st.assume(fmt.Sprintf("(forall ((%s Int)) (! (=> (and (<= %s %s) (< %s (+ %s %s))) (= %s %s)) :pattern (%s)))", i, sl, i, i, sl, tl, u.sliceAt(r, i), u.sliceAt(t, app("-", i, sl)), u.sliceAt(r, i)))
 	return r
 }
 
